@@ -11,6 +11,7 @@ def parseOp (_i : Nat) (t : String) : Option Op :=
   | ["L", f, k] => do some (.lookup (← f.toNat?) (← k.toNat?))
   | ["R", f, k] => do some (.remove (← f.toNat?) (← k.toNat?))
   | ["U", f, k] => do some (.touch (← f.toNat?) (← k.toNat?))
+  | ["X", f, k] => do some (.insertFail (← f.toNat?) (← k.toNat?))
   | _ => none
 
 def parseOps : Nat → List String → Option (List Op)
